@@ -941,6 +941,87 @@ theorem C09_minter_history (s0 : State) (ops : List Op) :
   rw [List.nil_append] at this
   exact this
 
+/-! ## 7. The pre-3.1.0 storage layout (no `royalty_updated_at` item): the freezes survive the upgrade that creates it
+
+`XState` / `xstep` (Model/Sg721.lean) track the absence of the item next to the state. Every `xstep` is either the
+environment step (state untouched) or a `step` of the core, so every step theorem above transfers; the two freeze clauses
+are restated over `xrun` histories because this is the path a faithful "old collection" takes:
+freeze → (old layout) → migrate to the sg721-updatable code → messages. -/
+
+theorem xstep_core {x x' : XState} {xo : XOp} (h : xstep x xo = .ok x') :
+    x'.core = x.core ∨ ∃ o, xo = .op o ∧ step x.core o = .ok x'.core := by
+  cases xo with
+  | dropRoyaltyStamp =>
+    simp only [xstep, Except.ok.injEq] at h
+    subst h; exact .inl rfl
+  | op o =>
+    right
+    refine ⟨o, rfl, ?_⟩
+    simp only [xstep] at h
+    split at h
+    · cases h
+    · cases hs : step x.core o with
+      | ok s' => rw [hs] at h; simp only [Except.ok.injEq] at h; subst h; rfl
+      | error e => rw [hs] at h; cases h
+
+theorem xstep'_cases (x : XState) (xo : XOp) : (∃ x', xstep x xo = .ok x' ∧ xstep' x xo = x') ∨ xstep' x xo = x := by
+  unfold xstep'
+  cases h : xstep x xo with
+  | ok x' => exact .inl ⟨x', rfl, rfl⟩
+  | error e => exact .inr rfl
+
+theorem xrun_induction (P : State → Prop) (hstep : ∀ s s' op, P s → step s op = .ok s' → P s')
+    (x : XState) (h : P x.core) (ops : List XOp) : P (xrun x ops).core := by
+  induction ops generalizing x with
+  | nil => exact h
+  | cons xo ops ih =>
+    show P (xrun (xstep' x xo) ops).core
+    apply ih
+    rcases xstep'_cases x xo with ⟨x', hs, he⟩ | he
+    · rw [he]
+      rcases xstep_core hs with hc | ⟨o, _, ho⟩
+      · rw [hc]; exact h
+      · exact hstep _ _ o h ho
+    · rw [he]; exact h
+
+/-- Collection-info freeze over histories that include the old-layout environment step: still final. -/
+theorem C09_freeze_final_old_layout (x : XState) (hf : x.core.frozenInfo = true) (ops : List XOp) :
+    (xrun x ops).core.frozenInfo = true ∧ editable (xrun x ops).core.info = editable x.core.info :=
+  xrun_induction (fun s => s.frozenInfo = true ∧ editable s.info = editable x.core.info)
+    (fun a a' op ha h => by
+      obtain ⟨h1, h2⟩ := frozen_step a a' op ha.1 h
+      exact ⟨h1, h2.trans ha.2⟩) x ⟨hf, rfl⟩ ops
+
+/-- Metadata freeze over such histories: flag and kind stay, no update is accepted. -/
+theorem C09_meta_freeze_old_layout (x : XState) (hk : x.core.kind = .updatable) (hf : x.core.frozenMeta = true)
+    (ops : List XOp) : (xrun x ops).core.kind = .updatable ∧ (xrun x ops).core.frozenMeta = true :=
+  xrun_induction (fun s => s.kind = .updatable ∧ s.frozenMeta = true)
+    (fun a a' op ha hs => by
+      obtain ⟨h1, h2, _⟩ := metaFrozen_step a a' op ha.1 ha.2 hs
+      exact ⟨h1, h2⟩) x ⟨hk, hf⟩ ops
+
+/-- The upgrade re-creates the item exactly as `v3_1_0::upgrade` does (`now − 24 h`), and touches neither freeze flag,
+nor the info, nor the tokens; a collection with the item absent and a stored version ≥ 3.1.0 keeps it absent. -/
+theorem C09_royalty_stamp_recreated (x x' : XState) (now : Nat)
+    (h : xstep x (.op (.migrate .updatable now)) = .ok x') :
+    (x.core.ver < V_3_1_0 → x'.ruaAbsent = false ∧ x'.core.royaltyUpdatedAt = now - DAY_NS) ∧
+    (¬ x.core.ver < V_3_1_0 → x'.ruaAbsent = x.ruaAbsent ∧ x'.core.royaltyUpdatedAt = x.core.royaltyUpdatedAt) ∧
+    x'.core.frozenInfo = x.core.frozenInfo ∧ x'.core.info = x.core.info ∧ x'.core.tokens = x.core.tokens ∧
+    (x.core.kind = .updatable → x'.core.frozenMeta = x.core.frozenMeta) := by
+  simp only [xstep, royaltyAcceptRequested, Bool.and_false, Bool.false_eq_true, if_false] at h
+  cases hs : step x.core (.migrate .updatable now) with
+  | error e => rw [hs] at h; cases h
+  | ok s' =>
+    rw [hs] at h
+    simp only [Except.ok.injEq] at h
+    subst h
+    simp only [step, migrateTo, migrateToUpdatable, ensure_ok, Except.ok.injEq] at hs
+    obtain ⟨-, -, -, -, -, -, rfl⟩ := hs
+    refine ⟨?_, ?_, rfl, rfl, rfl, ?_⟩
+    · intro hv; simp [recreatesRoyaltyStamp, hv]
+    · intro hv; simp [recreatesRoyaltyStamp, hv]
+    · intro hk; simp [hk]
+
 /-! ## Non-vacuity: concrete reachable states satisfying the hypotheses above; proved counter-examples -/
 
 section Examples
@@ -1055,6 +1136,20 @@ theorem C09_royalty_timestamp_rewound_by_migration :
     exOldBase.royaltyUpdatedAt = exBlock.time ∧
     (run exOldBase [.migrate .updatable (exBlock.time + 3 * DAY_NS)]).royaltyUpdatedAt = exBlock.time + 2 * DAY_NS :=
   ⟨by decide, by decide, by rfl, by decide, by decide⟩
+
+/-- the faithful old collection: frozen sg721-base, stored version 3.0.5, NO `royalty_updated_at` item; the migration is
+accepted, re-creates the item, and the collection info is still frozen afterwards (the creator's update is refused) -/
+def exOldLayout : List XOp :=
+  [.op (exCall 10 .freezeCollectionInfo), .op (.setVersion ⟨3, 0, 5⟩), .dropRoyaltyStamp,
+   .op (.migrate .updatable (exBlock.time + 3 * DAY_NS)),
+   .op (exCall 10 (.updateCollectionInfo ⟨some ⟨2, 10⟩, none, none, none, none, none⟩ true))]
+example : (xrun ⟨exInit .base, false⟩ (exOldLayout.take 3)).ruaAbsent = true ∧
+    (xrun ⟨exInit .base, false⟩ (exOldLayout.take 4)).ruaAbsent = false ∧
+    (xrun ⟨exInit .base, false⟩ (exOldLayout.take 4)).core.kind = .updatable ∧
+    (xrun ⟨exInit .base, false⟩ (exOldLayout.take 4)).core.royaltyUpdatedAt = exBlock.time + 2 * DAY_NS ∧
+    (xrun ⟨exInit .base, false⟩ exOldLayout).core.frozenInfo = true ∧
+    (xrun ⟨exInit .base, false⟩ exOldLayout).core.info = exInfo :=
+  ⟨by decide, by decide, by decide, by decide, by decide, by rfl⟩
 
 end Examples
 
